@@ -265,7 +265,7 @@ pub fn any_ga_u32<N: ArrayLength>() -> GenericArray<u32, N> {
 // ---------------------------------------------------------------------------------------------
 // call log for order-of-evaluation properties
 // ---------------------------------------------------------------------------------------------
-pub const LOGCAP: usize = 40;
+pub const LOGCAP: usize = 264;
 pub static mut LOG: [u32; LOGCAP] = [0; LOGCAP];
 pub static mut LOGN: usize = 0;
 pub fn log(v: u32) {
